@@ -88,6 +88,12 @@ def impl_roundtrips(sc, env, problems):
     o2 = Observation.from_numpy(o.numpy_flat().copy(), st.shape())
     if not np.array_equal(o2.tensor, o.tensor):
         problems.append(("C09", "Observation.from_numpy(flat) does not give back the observation"))
+    o3 = Observation.from_numpy(o.numpy().copy(), st.shape())
+    if not np.array_equal(o3.tensor, o.tensor):
+        problems.append(("C09", "Observation.from_numpy(2D) does not give back the observation"))
+    st3 = State.from_numpy(st.tensor.copy(), st.shape(), st.host_num_map)
+    if not np.array_equal(st3.tensor, st.tensor):
+        problems.append(("C09", "State.from_numpy(2D) does not give back the state"))
     if o.tensor.shape != (len(sc.hosts) + 1, sc.get_state_dims()[1]) \
             or tuple(sc.get_observation_dims()) != o.tensor.shape:
         problems.append(("C09", "observation shape is not (hosts+1, row width)"))
@@ -307,6 +313,7 @@ def run(tier, seed):
     kinds = ["random"] * b["n_random"] + ["randombig"] * b["n_big"] + b["gens"] + b["bench"]
     tasks = [(seed, i, k, tier) for i, k in enumerate(kinds)]
     rs = runner.pmap(run_scenario, tasks)
+    runner.stamp("layout", "run_scenario", tasks, rs)
     errors = [dict(idx=r["idx"], kind=r["kind"], error=r["error"]) for r in rs
               if r["error"] and not r["error"].startswith("untranslatable")]
     shapes = collections.Counter(r["shape"] for r in rs)
